@@ -89,6 +89,7 @@ type mnWorld struct {
 	bmpConns int
 	bmpEOF   int
 	bmpOn    bool
+	bmpCur   *fakeConn // the station's end of the current connection
 	bmpCaps  map[string]bool // "ptype/addr" -> ADD-PATH (both directions) for IPv4 unicast seen in the Peer Up OPENs
 
 	// MRT
@@ -292,6 +293,7 @@ func (w *mnWorld) dialHook(ctx context.Context, addr string, port int) (net.Conn
 	srv, st := vpPipe(w.ss.addr, netip.MustParseAddr(mnStation), 45000, port)
 	w.bmpMu.Lock()
 	w.bmpConns++
+	w.bmpCur = st
 	w.bmpMu.Unlock()
 	go func() {
 		buf := make([]byte, 65536)
@@ -682,6 +684,19 @@ func (w *mnWorld) step(st mnStep) {
 		w.bmpOn = true
 	case "BmpOff":
 		w.bmpOff()
+	case "BmpDrop":
+		// the station closes the connection; the daemon notices at its next write and dials again
+		w.bmpMu.Lock()
+		c := w.bmpCur
+		w.bmpCur = nil
+		w.bmpMu.Unlock()
+		if c != nil {
+			c.Close()
+		}
+		synctest.Wait()
+		w.bmpMu.Lock()
+		w.bmpBuf = nil // nothing of the old session is kept
+		w.bmpMu.Unlock()
 	case "Dump":
 		// the table dumper ticks every 60 virtual seconds: exactly one tick falls into this sleep
 		time.Sleep(60 * time.Second)
